@@ -333,6 +333,38 @@ def rule_pool_construction(ctx):
             else:
                 ok = "static_inbound" in s and chain(extra)[1][-1:] == ["dynamic_inbound_limit"]
                 exp = "(static_inbound, dynamic_inbound_limit)"
+                # the allowed set is the configured static_inbound set and nothing else: no other field of the gossip configuration
+                # flows into it (a set built in a local is followed through its dependency closure)
+                la = Q.LocalFlow._local_op(c["t"]["args"][0])
+                if ok and la is not None:
+                    flow = Q.LocalFlow(f)
+                    # dependency closure of the set, not entered through the configuration object itself
+                    clo, st_ = {la}, [la]
+                    while st_:
+                        x = st_.pop()
+                        for y in list(flow.deps.get(x, ())) + ([flow.borrow_of[x]] if x in flow.borrow_of else []):
+                            if y not in clo and y < len(f.locals) and "Config" not in f.locals[y].s and not (1 <= y <= f.argc):
+                                clo.add(y)
+                                st_.append(y)
+                    other = set()
+                    Tf = ctx.T(f)
+
+                    def cfg_fields(t):
+                        for x in subterms(t):
+                            if x[0] == "field" and x[2] in ("static_outbound",):      # the other key collection of the gossip configuration
+                                other.add(x[2])
+                    for b in f.blocks:
+                        for st in b["s"]:
+                            if st["k"] == "assign" and st["p"]["l"] in clo:
+                                cfg_fields(Tf.rvalue(st["r"]))
+                        tt = b["t"]
+                        if tt["k"] == "call" and "decl" in tt["f"] and tt is not c["t"]:
+                            ls = [Q.LocalFlow._local_op(a) for a in tt["args"]]
+                            if (not tt["dest"].get("pr") and tt["dest"]["l"] in clo) or any(l is not None and (l in clo or flow.borrow_of.get(l) in clo) for l in ls[:1]):
+                                cfg_fields(Tf.call_term(tt))
+                    if other:
+                        ok = False
+                        s = "static_inbound extended with %s" % sorted(other)
         ctx.ob(R, "%s pool %s" % (net, exp), ok, "PoolWatch::new%s" % exp if ok else "%s pool is constructed with (%s, %s)" % (net, s[:80], show(extra)), f.loc(c["t"].get("ln")))
 
 
